@@ -33,6 +33,9 @@ GRIDS_QUICK = [
     (dict(x=(-3, 1)), 'hint-narrow', 40),
     (dict(x=(0, 3), y=(1, 5)), 'hint-narrow', 56),
     (dict(x=(-4, -2), y=(0, 1)), 'hint-narrow', 42),
+    # single-valued type hints (the variable still ranges over its bits)
+    (dict(x=(3, 3), y=(0, 2)), 'hint-narrow', 36),
+    (dict(x=(-2, -2), y=(0, 0)), 'hint-narrow', 27),
     (dict(x=(0, 1), y=(0, 1), z=(0, 1), w=(0, 1)), 'all-but-two', 0),
     (dict(x=(0, 1), y=(0, 1), z=(0, 1), w=(0, 2)), 'random-care', 24),
 ]
